@@ -226,6 +226,7 @@ impl<'a> ConstraintValidator<'a> {
 
         // Build the key from the indexed columns
         let mut key_bytes: Vec<u8> = Vec::new();
+        let mut key_cursor = 0usize;
         let mut has_null = false;
 
         for &col_idx in index.indexed_column_ids() {
@@ -236,8 +237,11 @@ impl<'a> ConstraintValidator<'a> {
                     has_null = true;
                     break;
                 }
-                let serialized = values[col_idx].serialize()?;
-                key_bytes.extend_from_slice(&serialized);
+                // Lay the key out as the index tuples do: every value at its own alignment
+                // (plain concatenation misplaces an 8 byte value that follows a 4 byte one).
+                let size = values[col_idx].serialize()?.len();
+                key_bytes.resize(key_cursor + size + 16, 0);
+                key_cursor = values[col_idx].write_to(&mut key_bytes, key_cursor)?;
             }
         }
 
@@ -245,6 +249,7 @@ impl<'a> ConstraintValidator<'a> {
         if has_null && skip_nulls {
             return Ok(false);
         }
+        key_bytes.truncate(key_cursor);
 
         // Search in the index
         let mut index_btree = self.ctx.build_tree(index_root);
